@@ -626,7 +626,10 @@ def replay(path):
     if rep.get("kind") == "mtstress":
         build_harness()
         op = os.path.join(WORK, "replay", "stress.out")
-        sh([BIN, "mtstress", rep["scenario"], str(rep["threads"]), str(rep["iterations"]), op], timeout=3000)
+        rc, out = sh([BIN, "mtstress", rep["scenario"], str(rep["threads"]), str(rep["iterations"]), op], timeout=3000)
+        if rc != 0:
+            print("replay: the harness process died again (exit %d): %s" % (rc, out[-600:]))
+            return 1
         r = json.loads(open(op).readline())
         print(json.dumps(r, indent=1)[:3000])
         print(f"replay: {r['bad']} bad iteration(s) of {r['iterations']}")
